@@ -45,7 +45,7 @@ impl Property for C14 {
                 }
                 y.push_str(&format!("    build: \"@sim id=p0.t{}\"\n", i));
             }
-            let projects = vec![Project { dir: "p0".into(), name: None, imports: vec![], targets: vec![], raw_yaml: Some(y) }];
+            let projects = vec![Project { dir: "p0".into(), name: None, imports: vec![], targets: vec![], raw_yaml: Some(y), import_paths: Default::default() }];
             let mut sc = Scenario { focus: None, label: format!("config-deep-chain-{}", n), projects, files: vec![], vars: BTreeMap::new(), steps: vec![] };
             // the verdict does not depend on the hash order here: two orders are enough; the
             // request is a shallow target so that an accepted project runs quickly
@@ -60,8 +60,8 @@ impl Property for C14 {
             let root_yaml = |dep: &str| format!("imports:\n  lib: \"../pa\"\ntargets:\n  t:\n    input: [{{paths: [src.txt]}}]\n    output: [{{paths: [t.out]}}]\n    build: \"@sim id=p0.t read=src.txt write=t.out\"\n  top:\n    dependencies: [\"{}\", t]\n    input: [{{paths: [src.txt]}}]\n    build: \"@sim id=p0.top read=src.txt\"\n", dep);
             let lib_yaml = "name: lib\ntargets:\n  t:\n    input: [{paths: [src.txt]}]\n    output: [{paths: [t.out]}]\n    build: \"@sim id=pa.t read=src.txt write=t.out\"\n".to_string();
             let projects = vec![
-                Project { dir: "p0".into(), name: None, imports: vec![("lib".into(), 1)], targets: vec![], raw_yaml: Some(root_yaml("lib::t")) },
-                Project { dir: "pa".into(), name: Some("lib".into()), imports: vec![], targets: vec![], raw_yaml: Some(lib_yaml) },
+                Project { dir: "p0".into(), name: None, imports: vec![("lib".into(), 1)], targets: vec![], raw_yaml: Some(root_yaml("lib::t")), import_paths: Default::default() },
+                Project { dir: "pa".into(), name: Some("lib".into()), imports: vec![], targets: vec![], raw_yaml: Some(lib_yaml), import_paths: Default::default() },
             ];
             let files = vec![FileSpec { path: "p0/src.txt".into(), kind: FileKind::File("root source\n".into()) }, FileSpec { path: "pa/src.txt".into(), kind: FileKind::File("lib source\n".into()) }];
             let mut sc = Scenario { focus: None, label: "config-broken-after-build".into(), projects, files, vars: BTreeMap::new(), steps: vec![] };
@@ -164,6 +164,13 @@ impl Property for C14 {
                     5 => ("invalid-target-name", format!("  \"{}\":\n    build: \"@sim id=x.bad\"\n", rng.pick(&["-bad", "gen docs", "pack.output", "lib/v2", "app::core", "tail!"]))),
                     _ => ("unknown-resource-key", "  bad:\n    build: \"@sim id=x.bad\"\n    input: [{paths: [x], colour: red}]\n".to_string()),
                 };
+                if (case_no + what.len() as u64) % 3 == 0 {
+                    // a big project file: the offending part lies beyond the first 64 KiB
+                    // (generated files, long licence headers)
+                    for line in 0..900 {
+                        y.push_str(&format!("  # generated section, line {:04} ............................................................\n", line));
+                    }
+                }
                 y.push_str(&text);
                 invalid = Some(format!("{}@{}", what, dirs[i]));
             }
@@ -178,7 +185,7 @@ impl Property for C14 {
                 }
                 y.push_str(&format!("  top:\n    dependencies: [{}]\n    build: \"@sim id=p0.top\"\n", deps.iter().map(|d| format!("\"{}\"", d)).collect::<Vec<_>>().join(", ")));
             }
-            projects.push(Project { dir: dirs[i].to_string(), name: names[i].clone(), imports: imports[i].clone(), targets: vec![], raw_yaml: Some(y) });
+            projects.push(Project { dir: dirs[i].to_string(), name: names[i].clone(), imports: imports[i].clone(), targets: vec![], raw_yaml: Some(y), import_paths: Default::default() });
         }
         let request = match rng.weighted(&[60, 40]) {
             0 => "top".to_string(),
